@@ -51,6 +51,12 @@ func fillIds(u *Uni) {
 	if u.IdsB == nil {
 		u.IdsB = []uint64{}
 	}
+	bad := func(ids []uint64, n int) bool { return len(ids) != 0 && len(ids) != n }
+	if bad(u.IdsC, len(u.Common)) || bad(u.IdsA, len(u.A)) || bad(u.IdsB, len(u.B)) {
+		fmt.Fprintf(os.Stderr, "c01: id lists do not match the block lists (idsC %d/%d, idsA %d/%d, idsB %d/%d)\n",
+			len(u.IdsC), len(u.Common), len(u.IdsA), len(u.A), len(u.IdsB), len(u.B))
+		os.Exit(3)
+	}
 	if len(u.IdsC) != len(u.Common) {
 		u.IdsC = make([]uint64, len(u.Common))
 		for i := range u.Common {
@@ -163,7 +169,8 @@ func gen(r *hx.Rng) Uni {
 		return c.Obs[len(c.Obs)-1].Heights[0], true
 	}
 	nextID := uint64(0)
-	extend := func(prefix []Block, branch *[]Block, ids *[]uint64, other []Block, allowChange bool) {
+	extend := func(prefix []Block, branch *[]Block, ids *[]uint64, other []Block, curp *[]Val, allowChange bool) {
+		cur := *curp
 		full := append(append([]Block{}, prefix...), *branch...)
 		mhp, ok := mhpOf(full)
 		if !ok {
@@ -255,8 +262,10 @@ func gen(r *hx.Rng) Uni {
 			*branch = append(*branch, b)
 			nextID++
 			*ids = append(*ids, nextID)
-			if b.Chg != nil && !allowChange {
-				cur = append([]Val{}, b.Chg.Vals...)
+			if b.Chg != nil {
+				// the announced set generates from the next height on, on THIS chain (prefix change: both branches inherit it;
+				// branch-local change: only this branch) -- joiners forge
+				*curp = append([]Val{}, b.Chg.Vals...)
 			}
 			signed[v] = append(signed[v], x)
 			if maxForged[v] < h {
@@ -270,8 +279,10 @@ func gen(r *hx.Rng) Uni {
 		ncommon = batch + r.Intn(4*batch) // long enough for pruning to matter
 	}
 	for i := 0; i < ncommon; i++ {
-		extend(nil, &u.Common, &u.IdsC, nil, false)
+		extend(nil, &u.Common, &u.IdsC, nil, &cur, false)
 	}
+	curA := append([]Val{}, cur...)
+	curB := append([]Val{}, cur...)
 	steps := 4 + r.Intn(9*batch)
 	changes := r.Intn(4) == 0
 	onA := r.Bool()
@@ -281,9 +292,9 @@ func gen(r *hx.Rng) Uni {
 			onA = !onA
 		}
 		if onA {
-			extend(u.Common, &u.A, &u.IdsA, u.B, changes)
+			extend(u.Common, &u.A, &u.IdsA, u.B, &curA, changes)
 		} else {
-			extend(u.Common, &u.B, &u.IdsB, u.A, changes)
+			extend(u.Common, &u.B, &u.IdsB, u.A, &curB, changes)
 		}
 	}
 	if u.Common == nil {
@@ -295,6 +306,71 @@ func gen(r *hx.Rng) Uni {
 	if u.B == nil {
 		u.B = []Block{}
 	}
+	fillIds(&u)
+	return u
+}
+
+// Directed conflict universes (classes 20/21 of Corr/C01.check_uni reached by construction): the two refutation witnesses of
+// BFT/Refuted.v with the validator addresses permuted at random (and, for the validator-change witness, a random fresh set).
+// Every header carries the node's own maxHeightPrevoted, computed by running the module on the prefix.
+type spec struct {
+	h, mhg, gen uint32
+	chg         *Change
+}
+
+func directed(r *hx.Rng, change bool) Uni {
+	perm := []uint32{1, 2, 3, 4}
+	for i := 3; i > 0; i-- {
+		j := r.Intn(i + 1)
+		perm[i], perm[j] = perm[j], perm[i]
+	}
+	p := func(g uint32) uint32 {
+		if g >= 1 && g <= 4 {
+			return perm[g-1]
+		}
+		return g
+	}
+	vs := []Val{}
+	for i := 1; i <= 4; i++ {
+		vs = append(vs, Val{A: uint32(i), W: 1})
+	}
+	u := Uni{K: "uni", Batch: 4, GH: 0}
+	var common, ta, tb []spec
+	if !change {
+		u.Init = Change{PC: 2, Cert: 2, Vals: vs, Standby: []uint32{}}
+		common = []spec{{1, 0, 2, nil}, {2, 0, 3, nil}, {3, 0, 4, nil}, {4, 0, 1, nil}}
+		ta = []spec{{5, 4, 1, nil}, {6, 1, 2, nil}, {7, 3, 4, nil}, {8, 5, 1, nil}, {9, 7, 4, nil}}
+		tb = []spec{{5, 3, 4, nil}, {6, 2, 3, nil}, {7, 6, 2, nil}, {8, 6, 3, nil}, {9, 5, 4, nil}, {10, 8, 3, nil}, {11, 9, 4, nil}}
+	} else {
+		u.Init = Change{PC: 3, Cert: 3, Vals: vs, Standby: []uint32{}}
+		base := uint32(4 + 4*r.Intn(3)) // fresh set {base+1..base+4}
+		nv := []Val{}
+		for i := uint32(1); i <= 4; i++ {
+			nv = append(nv, Val{A: base + i, W: 1})
+		}
+		chg := &Change{PC: 3, Cert: 3, Vals: nv, Standby: []uint32{}}
+		common = []spec{{1, 0, 1, nil}, {2, 0, 2, nil}, {3, 0, 3, nil}, {4, 0, 4, nil}}
+		ta = []spec{{5, 1, 1, nil}, {6, 2, 2, nil}, {7, 3, 3, nil}, {8, 4, 4, nil}, {9, 5, 1, nil}, {10, 6, 2, nil}, {11, 7, 3, nil}}
+		tb = []spec{{5, 4, 4, chg}, {6, 0, base + 1, nil}, {7, 0, base + 2, nil}, {8, 0, base + 3, nil}, {9, 0, base + 4, nil},
+			{10, 6, base + 1, nil}, {11, 7, base + 2, nil}, {12, 8, base + 3, nil}}
+	}
+	build := func(prefix []Block, sp []spec) []Block {
+		out := []Block{}
+		for _, x := range sp {
+			full := append(append([]Block{}, prefix...), out...)
+			c := Case{Batch: 4, GH: 0, Init: u.Init, Blocks: full, Commit: true}
+			RunCase(&c)
+			mhp := uint32(0)
+			if len(c.Obs) > 0 {
+				mhp = c.Obs[len(c.Obs)-1].Heights[0]
+			}
+			out = append(out, Block{H: x.h, Gen: p(x.gen), MHG: x.mhg, MHP: mhp, Chg: x.chg})
+		}
+		return out
+	}
+	u.Common = build(nil, common)
+	u.A = build(u.Common, ta)
+	u.B = build(u.Common, tb)
 	fillIds(&u)
 	return u
 }
@@ -331,7 +407,15 @@ func main() {
 	}
 	r := hx.NewRng(hx.SeedFromEnv())
 	for i := 0; i < *n; i++ {
-		u := gen(r)
+		var u Uni
+		switch {
+		case i%25 == 7: // floor by construction: directed conflict universes in every 25
+			u = directed(r, false)
+		case i%25 == 19:
+			u = directed(r, true)
+		default:
+			u = gen(r)
+		}
 		runUni(&u)
 		o.Put(u)
 	}
